@@ -97,7 +97,12 @@ MANIFEST = dict(
          "values read back converted, rejected ones (wrong type, bad item, None) raise TypeError / ValueError / OverflowError - "
          "never SystemError or a crash - and the member reads as before. Additional trust: the pattern table of "
          "tools/extract_pydescr.py (template line -> op code); that the fill helper writes the member only on success and the "
-         "converters' verdicts (PyV.good / bad) - both observed on the compiled code. Not modelled: "
+         "converters' verdicts (PyV.good / bad) - both observed on the compiled code. List element types: the compiled "
+         "helper tie runs get_from_object_<T>_list for short, unsigned short, unsigned int, long, unsigned long, (u)int8/16/32/64_t "
+         "and float besides int / double (converted values modulo the element width), and compiled C++ / C extensions take "
+         "list arguments of each of these element types with a wrongly typed item ('x', None, complex, 2.5) at every index; "
+         "attribute values in generated declarations are written in lower, upper and capitalised spelling (+intent(OUT)). "
+         "Not modelled: "
          "CPython reference counts, numpy conversions (py_descr_*_numpy stay in the path table without clauses), user functions "
          "inside implied expressions, implied parameters of a type other than int in the generated calls (assignTo models "
          "Py_ssize_t / size_t targets, not driven), charlen given as an identifier, deleting a member (del r.x), integers "
